@@ -2,7 +2,7 @@
 implementation-level oracle used to search for a concrete failing input."""
 import re
 
-from . import gen_kzg, gen_pc, gen_c16, gen_c13, gen_c08, gen_c09
+from . import gen_kzg, gen_pc, gen_c16, gen_c13, gen_c08, gen_c09, gen_c15
 from .gen_common import R_BLS381
 from .oracles import pc_honest, pc_mutations, pc_refusals, pc_hiding, pc_domain, pc_serialization
 
@@ -233,6 +233,99 @@ def oracle_c09(case, lo):
     return fails
 
 
+def _binom(n, k):
+    import math
+    return math.comb(n, k)
+
+
+def _vectors(nv, D):
+    out = []
+
+    def rec(v, left, cur):
+        if v == nv:
+            out.append(tuple(cur))
+            return
+        for e in range(left + 1):
+            rec(v + 1, left - e, cur + [e])
+    rec(0, D, [])
+    return sorted(out)
+
+
+def oracle_c15(case, lo):
+    """the statement of C15 evaluated on library outputs only (independent enumeration in python)"""
+    fails = []
+    if case.kind != "c15":
+        return fails
+    sub = case.fields["sub"][0]
+    if sub == "setup":
+        nv, D, s = int(case.fields["num_vars"][0]), int(case.fields["D"][0]), int(case.fields["s"][0])
+        tag = "MarlinPST13::setup(num_vars=%d, max_degree=%d)" % (nv, D)
+        if nv < 1 or D < 1:
+            if lib_s(lo, "setup") == "ok":
+                fails.append("%s served an out-of-domain request" % tag)
+            return fails
+        if lib_s(lo, "setup") != "ok":
+            fails.append("%s refused: %s" % (tag, lib_s(lo, "setup")))
+            return fails
+        if lib_s(lo, "constant_term") != "present":
+            fails.append("%s published no element for the constant monomial" % tag)
+            return fails
+        want = _vectors(nv, D)
+        got = [tuple(int(x) for x in t.split(".")) for t in (lib_toks(lo, "terms") or [])]
+        if sorted(got) != want:
+            miss = [w for w in want if w not in set(got)]
+            extra = [g for g in got if g not in set(want)]
+            fails.append("%s: key set differs from the monomials of total degree <= %d: %d missing (e.g. %s), %d unexpected (e.g. %s)"
+                         % (tag, D, len(miss), miss[:2], len(extra), extra[:2]))
+        if len(got) != len(set(got)) or lib_s(lo, "nkeys") != str(_binom(nv + D, D)):
+            fails.append("%s published %s elements, expected C(%d,%d) = %d" % (tag, lib_s(lo, "nkeys"), nv + D, D, _binom(nv + D, D)))
+        if lib_s(lo, "values_match_trapdoor") != "yes":
+            fails.append("%s: a published element is not g scaled by its monomial at the trapdoor" % tag)
+        if lib_s(lo, "pairing_consistent") != "yes":
+            fails.append("%s: e(G[m*x_i], H) != e(G[m], beta_i H) for some monomial" % tag)
+        if lib_s(lo, "pairing_missing") not in ("0", None):
+            fails.append("%s: %s monomials m*x_i of degree <= D have no element" % (tag, lib_s(lo, "pairing_missing")))
+        if s <= D:
+            if lib_s(lo, "trim") != "ok":
+                fails.append("%s: trim to supported degree %d refused: %s" % (tag, s, lib_s(lo, "trim")))
+            else:
+                tgot = sorted(tuple(int(x) for x in t.split(".")) for t in (lib_toks(lo, "trim_terms") or []))
+                if tgot != [w for w in want if sum(w) <= s]:
+                    fails.append("%s: trim(%d) keeps %d monomials, expected exactly those of degree <= %d (%d)"
+                                 % (tag, s, len(tgot), s, len([w for w in want if sum(w) <= s])))
+                for k, what in (("trim_values_same", "changes the element of a monomial"), ("trim_gamma_same", "changes the hiding powers")):
+                    if lib_s(lo, k) != "yes":
+                        fails.append("%s: trim(%d) %s" % (tag, s, what))
+                if lib_s(lo, "trim_vk") != "faithful":
+                    fails.append("%s: trim(%d) verifier key or degree reports differ from the parameters" % (tag, s))
+                if lib_toks(lo, "trim_gamma_lens") != [str(s + 1)] * nv:
+                    fails.append("%s: trim(%d) hiding powers per variable %s, expected %d each" % (tag, s, lib_toks(lo, "trim_gamma_lens"), s + 1))
+        elif lib_s(lo, "trim") == "ok":
+            fails.append("%s: trim served supported degree %d > max degree" % (tag, s))
+    elif sub == "comb":
+        import itertools
+        orig = [int(x) for x in case.fields["orig"]]
+        ln = int(case.fields["len"][0])
+        if 1 <= ln < len(orig):
+            if lib_s(lo, "comb") != "ok":
+                fails.append("Combinations::new(%s, %d) aborted: %s" % (orig, ln, lib_s(lo, "comb")))
+            else:
+                want = sorted(set(itertools.combinations(sorted(orig), ln)))
+                got = [tuple(int(x) for x in t.split(",")) for t in (lib_toks(lo, "combos") or [])]
+                if got != want:
+                    fails.append("Combinations(%s, %d) yields %d multisets (%d distinct), expected the %d distinct sorted sub-multisets"
+                                 % (orig, ln, len(got), len(set(got)), len(want)))
+    elif sub == "divide":
+        if lib_s(lo, "divide") != "ok":
+            fails.append("divide_at_point aborted: %s (num_vars %s, poly %s)" % (lib_s(lo, "divide"), case.fields["num_vars"][0], " ".join(case.fields.get("poly", []))))
+        elif lib_s(lo, "identity") != "holds":
+            fails.append("divide_at_point: p(x) - p(z) != sum (x_i - z_i) w_i(x) (num_vars %s, poly %s, z %s)"
+                         % (case.fields["num_vars"][0], " ".join(case.fields.get("poly", [])), " ".join(case.fields["z"])))
+        elif lib_s(lo, "quot_degree_ok") != "yes":
+            fails.append("divide_at_point: a quotient has degree >= deg p, so it cannot be committed under the same key")
+    return fails
+
+
 def lib_toks(lo, name):
     v = lo.get(name)
     return v[1] if v else None
@@ -354,9 +447,16 @@ PROPS = {
     },
     "C09": {
         "props_file": "props/C09.v",
-        "flows": [(gen_c09.gen, "c09", 90, 900), (gen_pc.gen, "c17domain", 30, 300)],
-        "oracles": [oracle_c09, pc_honest, pc_domain],
+        "flows": [(gen_c09.gen, "c09", 90, 900), (gen_pc.gen, "c17domain", 30, 300), (gen_c15.gen_setup, "c09", 16, 200)],
+        "oracles": [oracle_c09, oracle_c15, pc_honest, pc_domain],
         "title": "Setup and trim",
+    },
+    "C15": {
+        "props_file": "props/C15.v",
+        "flows": [(gen_c15.gen, "c15", 60, 600), (gen_pc.gen, "c15", 24, 360)],
+        "oracles": [oracle_c15, pc_honest, lambda c, lo: pc_mutations(c, lo, ("value", "comm_swap", "cancel"))],
+        "accept_diffs": ("mut.",),
+        "title": "PST13 parameters and division",
     },
     "C12": {
         "props_file": "props/C12.v",
